@@ -199,6 +199,7 @@ class World:
         self.stops: list[bool] = []
         self.ops: dict[str, Op] = {}
         self.step_writes: list[str] = []  # message names written since last drain
+        self.step_frames: list = []  # (type id, payload) of the same frames
         self.step_deliv: list = []
         self.write_calls_step = 0
         self.fail_writes: BaseException | None = None
@@ -259,6 +260,7 @@ class World:
         self.write_calls_step += 1
         for t, payload in codec.on_client_bytes(data):
             self.step_writes.append(msg_name(t) or f"id{t}")
+            self.step_frames.append((t, payload))
 
     # ------------------------------------------------------- current objects
     @property
@@ -354,6 +356,7 @@ class World:
     def drain_step(self):
         w, d, n = self.step_writes, self.step_deliv, self.write_calls_step
         self.step_writes, self.step_deliv, self.write_calls_step = [], [], 0
+        self.step_frames = []
         return w, d, n
 
     # ---------------------------------------------------------- projection
